@@ -261,6 +261,12 @@ func takeSnap(x *ops.Exec, outcomes []string, withCounts bool) *Snap {
 	for j, sv := range x.Saves {
 		s.addPackage(fmt.Sprintf("save%d:", j), sv)
 	}
+	// accessors before the bytes: GetPageSettings materialises an (empty) section-properties element on first use,
+	// so that everything observed afterwards (ToBytes here, Save in the concurrent part) sees the same document
+	s.addAccessors(x.Doc)
+	if withCounts {
+		s.addCounts(x.Doc)
+	}
 	var b []byte
 	var err error
 	if p, _ := kit.Try(func() { b, err = x.Doc.ToBytes() }); p != nil {
@@ -270,21 +276,6 @@ func takeSnap(x *ops.Exec, outcomes []string, withCounts bool) *Snap {
 	} else {
 		s.add(Item{Name: "ToBytes", Kind: "outcome", Val: "ok"})
 		s.addPackage("", b)
-	}
-	s.addAccessors(x.Doc)
-	if withCounts {
-		s.addCounts(x.Doc)
-	}
-	// documents of this history that were replaced as the current one (template bases, earlier renders) are still
-	// valid documents of the caller: their bytes are observed as well
-	for j, sd := range x.Side {
-		var sb []byte
-		var serr error
-		if p, _ := kit.Try(func() { sb, serr = sd.ToBytes() }); p != nil || serr != nil {
-			s.add(Item{Name: fmt.Sprintf("side%d:ToBytes", j), Kind: "outcome", Val: fmt.Sprintf("panic=%v err=%v", p, serr != nil)})
-			continue
-		}
-		s.addPackage(fmt.Sprintf("side%d:", j), sb)
 	}
 	return s
 }
